@@ -60,6 +60,8 @@ const (
 	c17KeyClosedRead  = "C17:value-input-from-closed-port-hangs"
 	c17KeyNilColl     = "C17:nil-for-list-or-map-parameter"
 	c17KeyRandint     = "C17:randint-range-overflow"
+	c17KeyRepeat      = "C17:str-repeat-overflow-wraps"
+	c17KeyFlagName    = "C17:flag-name-panics"
 	c17KeySubseq      = "C17:has-subseq-invalid-utf8"
 	c17KeyNegFdFixed  = "C42:negative-fd"
 	c17KeyPowFixed    = "C11:pow-zero-negative"
@@ -354,7 +356,7 @@ var c17FnSrc = []string{
 	"{ }", "{|x| put $x }", "{|@a| put $@a }", "{|x| put $x $x }", "{|a b| put $a }", "{|x| fail boom }", "{ fail boom }", "{ break }", "{ return }", "{ continue }",
 	"{|x| put $x[0] }", "$nop~", "$put~", "{|a b| < $a $b }", "{|a b| put $true }", "{|a b| put abc }", "{|a b| put 1 2 }", "{|a b| put $nil }", "{|@a| put $true }", "{|@a| put $false }",
 	"{|x| echo $x }", "{|x| put [$x] }", "{|@a &k=v| put $k }", "{|m| put $m[text] }", "{|m| put $m[groups] }", "{|x| put (num 1) }", "{|x| nop }", "$fail~", "$-~", "$eq~", "$each~",
-	"(constantly a b)", "{|&a=1| put $a }", "{|x| put $x; put $x } ", "{|x| put ?(fail z) }", "{|a b| - $a $b }", "{|a b| compare $a $b }",
+	"(constantly a b)", "{|&a=1| put $a }", "{|&-a=1| }", "{|&a=1 &a-b=x| put $a }", "{|&'a=b'=1| }", "{|x| put $x; put $x } ", "{|x| put ?(fail z) }", "{|a b| - $a $b }", "{|a b| compare $a $b }",
 }
 
 var c17ListSrc = []string{
@@ -362,6 +364,7 @@ var c17ListSrc = []string{
 	"[1 2 3]", "[3 1 2 10]", "[-x --long v]", "[-- a]", "[-]", "[--]", "[\"-\\xff\"]", "[--=foo]", "[-ab -c v]", "[--no-such]", "[-x=1]",
 	"[[&short=a]]", "[[&long=foo &arg-required=$true]]", "[[&short=x &long=long &arg-optional=$true]]", "[[&]]", "[[&short=ab]]", "[[&short='']]", "[[&long='']]", "[[&short=a &extra=1]]",
 	"[[a b] [c]]", "[[&short=a &arg-required=$true &arg-optional=$true]]", "[(styled a red) b]", "[$true $false]", "[{ } { }]", "[0x41 0x10ffff]", "[0x110000]", "[-1]", "[255 256]",
+	"[[a 1 ''] [a 2 '']]", "[[-a 1 '']]", "[[a=b 1 '']]", "[[a 1 d] [b x d]]", "[['' 1 d]]",
 	"[a &k=v]", "[[a 1] [b 2]]", "[[a]]", "[[a b c]]", "[[(num 1) x] [$nil y]]", "[(range 5)]", "[l1 l2]", "[(num 1/2) (num 0.5) 1]",
 }
 
@@ -585,6 +588,13 @@ func (g c17G) call(fns []c17Fn, kind string) c17Case {
 	fn := fns[g.n("fn", 0, len(fns)-1)]
 	typed := fn.Sig && g.n("typed", 0, 9) < 7
 	var parts []string
+	if fn.Name == "str:repeat" && g.n("wrap?", 0, 3) == 0 {
+		// counts whose product with the string length wraps around the machine
+		// integer (or is rejected as negative): never an allocation
+		src := "use str; str:repeat " + g.of("rs", []string{"abcd", "ab", "abcdefgh", "''", "abcdefghijklmnop"}) + " " +
+			g.of("rn", []string{"4611686018427387904", "4611686018427387905", "9223372036854775807", "6917529027641081856"})
+		return c17Case{Kind: kind, Fn: fn.Name, Typed: true, Src: vs.B(src)}
+	}
 
 	// arguments
 	var nargs int
@@ -1099,6 +1109,10 @@ func init() {
 			c17Known(c17KeyNilColl, "call", "use flag; flag:parse-getopt [] $nil"),
 			c17Known(c17KeyNilColl, "call", "use flag; flag:parse [] [$nil]"),
 			c17Known(c17KeyRandint, "call", "randint -9223372036854775808 1"),
+			c17Known(c17KeyRepeat, "call", "use str; str:repeat abcd 4611686018427387904"),
+			c17Known(c17KeyFlagName, "call", "use flag; flag:parse [] [[a 1 ''] [a 2 '']]"),
+			c17Known(c17KeyFlagName, "call", "use flag; flag:parse [] [[-a 1 '']]"),
+			c17Known(c17KeyFlagName, "call", "use flag; flag:call {|&-a=1| } []"),
 		},
 	})
 	vs.Register(vs.Prop[c17Case]{
